@@ -162,9 +162,14 @@ def main(argv=None):
     if proof_future is not None:
         proof = collect_proof()
         if proof['obligations'] == 0:
-            print('checker fault: zero obligations generated for %s' % pid, file=sys.stderr)
-            E.write(time.time() - t0, violations=0)
-            return 3
+            if proof.get('out_of_subset') or proof.get('stale'):
+                # the functions under contract have left the accepted subset / no longer match their contracts (a changed tree):
+                # the deductive tier is undecided for this run, the bounded tier (incl. the run-time contracts) decides
+                sys.stderr.write('deductive tier undecided for %s: %s\n' % (pid, '; '.join((proof.get('out_of_subset') or []) + (proof.get('stale') or []))[:400]))
+            else:
+                print('checker fault: zero obligations generated for %s' % pid, file=sys.stderr)
+                E.write(time.time() - t0, violations=0)
+                return 3
     for line in known_lines:
         print(line)
     for path, suffix in violations:
